@@ -107,7 +107,7 @@ def trackerSpec (prop : String) (h : List Tr.Op) (failAt : Option Nat) (o : Spec
   | "C01" => Spec.Tracker.specC01 h o
   | "C02" | "C16" => Spec.Tracker.specC02 h failAt o
   | "C04" => Spec.Tracker.specC04 h o
-  | "C09" => Spec.Tracker.specC09 h o
+  | "C09" => Spec.Tracker.specC09 h failAt o
   | "C14" => Spec.Tracker.specC14 h o
   | _ => none
 
